@@ -12,7 +12,9 @@
 use std::io::{self, BufRead, Write};
 use std::panic::{catch_unwind, AssertUnwindSafe};
 
-use ureq_proto::client::call::state::{WithBody, WithoutBody};
+use ureq_proto::client::call::state::{
+    RecvBody as CallRecvBodyState, RecvResponse as CallRecvResponseState, WithBody, WithoutBody,
+};
 use ureq_proto::client::call::Call;
 use ureq_proto::client::flow::state::*;
 use ureq_proto::client::flow::*;
@@ -32,6 +34,8 @@ enum Obj {
     Cleanup(Flow<(), Cleanup>),
     CallWithout(Call<WithoutBody, ()>),
     CallWith(Call<WithBody, ()>),
+    CallRecvResponse(Call<CallRecvResponseState, ()>),
+    CallRecvBody(Call<CallRecvBodyState, ()>),
 }
 
 struct St {
@@ -292,6 +296,12 @@ fn do_try_response(st: &mut St, win: &[u8], track: bool) -> String {
             }
             Err(e) => err_name(&e),
         },
+        // single-call API (explicit windows only)
+        Obj::CallRecvResponse(c) if !track => match c.try_response(win) {
+            Ok(None) => "none #0".into(),
+            Ok(Some((n, r))) => format!("some #{} {}", n, obs_response(&r)),
+            Err(e) => err_name(&e),
+        },
         _ => "np".into(),
     }
 }
@@ -307,6 +317,13 @@ fn do_read(st: &mut St, win: &[u8], cap: usize, track: bool) -> String {
                     }
                     format!("ok #{} #{} {}", i, o, hex(&out[..o]))
                 }
+                Err(e) => err_name(&e),
+            }
+        }
+        Obj::CallRecvBody(c) if !track => {
+            let mut out = outbuf(cap);
+            match c.read(win, &mut out) {
+                Ok((i, o)) => format!("ok #{} #{} {}", i, o, hex(&out[..o])),
                 Err(e) => err_name(&e),
             }
         }
@@ -373,6 +390,20 @@ fn do_proceed(st: &mut St) -> String {
             }
         }
         Obj::Redirect(f) => (Obj::Cleanup(f.proceed()), "state Cleanup".into()),
+        // the single-call API: into_receive / into_body consume the call
+        Obj::CallWithout(c) => match c.into_receive() {
+            Ok(v) => (Obj::CallRecvResponse(v), "call RecvResponse".into()),
+            Err(e) => (Obj::None, err_name(&e)),
+        },
+        Obj::CallWith(c) => match c.into_receive() {
+            Ok(v) => (Obj::CallRecvResponse(v), "call RecvResponse".into()),
+            Err(e) => (Obj::None, err_name(&e)),
+        },
+        Obj::CallRecvResponse(c) => match c.into_body() {
+            Ok(Some(v)) => (Obj::CallRecvBody(v), "call RecvBody".into()),
+            Ok(None) => (Obj::None, "none".into()),
+            Err(e) => (Obj::None, err_name(&e)),
+        },
         other => (other, "np".into()),
     };
     st.obj = obj;
@@ -531,6 +562,10 @@ fn step(st: &mut St, toks: &[Tok]) -> String {
                 f.stop_on_chunk_boundary(*v != 0);
                 "ok".into()
             }
+            Obj::CallRecvBody(c) => {
+                c.stop_on_chunk_boundary(*v != 0);
+                "ok".into()
+            }
             _ => "np".into(),
         },
         ("as_new_flow", [Tok::W(p)]) => {
@@ -580,6 +615,7 @@ fn step(st: &mut St, toks: &[Tok]) -> String {
         },
         ("q_boundary", []) => match &st.obj {
             Obj::RecvBody(f) => b(f.is_on_chunk_boundary()),
+            Obj::CallRecvBody(c) => b(c.is_on_chunk_boundary()),
             _ => "np".into(),
         },
         ("q_body_mode", []) => match &st.obj {
@@ -648,6 +684,8 @@ fn step(st: &mut St, toks: &[Tok]) -> String {
         ("q_is_finished", []) => match &st.obj {
             Obj::CallWithout(c) => b(c.is_finished()),
             Obj::CallWith(c) => b(c.is_finished()),
+            Obj::CallRecvResponse(c) => b(c.is_finished()),
+            Obj::CallRecvBody(c) => b(c.is_ended()),
             _ => "np".into(),
         },
         _ => "badop".into(),
